@@ -108,6 +108,12 @@ def run(ctx):
     env = dict(os.environ, VERIF_SEED=str(ctx.seed))
     rc, out = V.run(args, env=env, timeout=3000)
     ctx.log(out.strip()[-500:])
+    if rc == 4 and os.path.exists(os.path.join(cdir, "hang.json")):
+        hung = json.load(open(os.path.join(cdir, "hang.json")))
+        rp = V.write_replay(ctx, drv + "-hang", {"kind": "correspondence", "engine": drv, "signature": "hang", "case": hung,
+                                                  "meaning": "a Process call on this case did not return within 30 s (watchdog)", "output": out[-2000:]})
+        ctx.violations.append({"match": drv + ":hang", "replay": rp, "what": "%s: a Process call did not return (watchdog); the case is the replay" % prop})
+        return
     if rc != 0:
         rp = V.write_replay(ctx, "harness-run", {"kind": "correspondence", "output": out[-4000:]})
         ctx.violations.append({"match": "harness-crash", "replay": rp, "what": drv + " crashed", "no_input": True})
